@@ -30,6 +30,8 @@ type Options struct {
 	ExoticDefaults bool
 	// DeprecatedInputs: put @deprecated on arguments and input fields (valid since the 2021 spec)
 	DeprecatedInputs bool
+	// ExecDirectives: directives may also be declared for QUERY / MUTATION / SUBSCRIPTION / FIELD
+	ExecDirectives bool
 }
 
 type Schema struct {
@@ -98,7 +100,7 @@ type dirDef struct {
 var plainTypeNames = []string{"User", "Post", "Comment", "Item", "Order", "Thing", "Widget", "Gadget", "Node2", "Entry", "Group", "Label", "Shape", "Event", "Asset"}
 var hostileTypeNames = []string{"Type", "Func", "Map", "Error", "String_", "Int_", "URL", "HTTPServer", "ApiKey", "Id", "XMLHttpRequest", "My_Type", "_Leading", "Trailing_", "a_b_c", "lowercase", "T", "Interface_", "Chan", "Select", "Range", "Package_", "JSON", "Uuid", "IPAddress"}
 var plainFieldNames = []string{"id", "name", "title", "count", "items", "owner", "parent", "children", "value", "score", "active", "tags", "createdAt", "kind", "ref", "other", "next", "prev", "extra", "note"}
-var hostileFieldNames = []string{"type", "func", "map", "range", "select", "chan", "go", "defer", "interface", "struct", "package", "import", "var", "const", "string", "int", "error", "nil", "true", "len", "new", "make", "append", "url", "id", "userId", "user_id", "HTTPStatus", "apiURL", "_private", "trailing_", "a_b", "x1", "ctx", "obj", "ec", "err", "fc", "args", "field", "it", "res", "ok"}
+var hostileFieldNames = []string{"type", "func", "map", "range", "select", "chan", "go", "defer", "interface", "struct", "package", "import", "var", "const", "string", "int", "error", "nil", "true", "len", "new", "make", "append", "url", "id", "userId", "user_id", "HTTPStatus", "apiURL", "_private", "trailing_", "a_b", "x1"}
 var enumValuePool = []string{"RED", "GREEN", "BLUE", "ACTIVE", "INACTIVE", "A", "B", "C", "ONE", "TWO", "UNKNOWN"}
 var hostileEnumValues = []string{"type", "Type", "TYPE", "nil", "String", "value_one", "valueOne", "VALUE_ONE", "_x", "x_", "URL", "Url", "Id", "ID", "go", "Go"}
 
@@ -407,6 +409,9 @@ func Generate(t *rapid.T, opt Options) *Schema {
 		for i := 0; i < nd; i++ {
 			d := dirDef{name: []string{"tag", "auth", "limit"}[i], desc: g.desc(), repeatable: rapid.Bool().Draw(t, "repeatable")}
 			locs := []string{"FIELD_DEFINITION", "ARGUMENT_DEFINITION", "INPUT_FIELD_DEFINITION", "OBJECT", "ENUM_VALUE", "INTERFACE", "UNION", "ENUM", "INPUT_OBJECT"}
+			if opt.ExecDirectives {
+				locs = append(locs, "QUERY", "MUTATION", "SUBSCRIPTION", "FIELD")
+			}
 			k := rapid.IntRange(1, 4).Draw(t, "nlocs")
 			perm := rapid.Permutation(locs).Draw(t, "locs")
 			d.locs = perm[:k]
@@ -590,8 +595,14 @@ func Generate(t *rapid.T, opt Options) *Schema {
 		}
 		return &bufs[rapid.IntRange(0, nfiles-1).Draw(t, "file")]
 	}
+	dirFile := pick()
 	for _, d := range g.dirs {
 		b := pick()
+		if opt.ExecDirectives {
+			// directives of executable locations declared in different files collide in gqlgen's
+			// follow-schema layout (known finding): keep all declarations in one file
+			b = dirFile
+		}
 		b.WriteString(renderDesc(d.desc, ""))
 		b.WriteString("directive @" + d.name)
 		if len(d.args) > 0 {
